@@ -62,9 +62,15 @@ func ForwardUserConn(udpConn *net.UDPConn, readCh <-chan *msg.UDPPacket, sendCh 
 		// buf[:n] will be encoded to string, so the bytes can be reused
 		udpMsg := NewUDPPacket(buf[:n], nil, remoteAddr)
 
-		select {
-		case sendCh <- udpMsg:
-		default:
+		// The owner of sendCh (the udp proxy) closes it right after the socket: a datagram read just before
+		// that must not turn into a send on the closed channel.
+		if err = errors.PanicToError(func() {
+			select {
+			case sendCh <- udpMsg:
+			default:
+			}
+		}); err != nil {
+			return
 		}
 	}
 }
